@@ -328,8 +328,9 @@ def make_case(score, rng, tier):
                     p.add(score.Note(step="CDEFGAB"[k], octave=7, id="%s_s%d" % (p.id, k), voice=v, staff=1), a, b)
                 feats.add("staggered_voice")
         if rng.random() < 0.3:
-            # voices other than the first need not be filled with rests (the first one fills every measure)
-            gone = [r for r in p.iter_all(score.Rest) if (r.voice or 1) > 1 and rng.random() < 0.6]
+            # voices need not be filled with rests, as long as one voice fills every measure
+            keep = rng.choice(sorted(set((n.voice or 1) for n in p.notes_tied)) or [1])       # one voice stays complete: it carries the measure lengths
+            gone = [r for r in p.iter_all(score.Rest) if (r.voice or 1) != keep and rng.random() < 0.6]
             for r in gone:
                 p.remove(r)
             if gone:
